@@ -47,7 +47,7 @@ static std::string pair_json(long long tag, long long val) { return "[" + std::t
 template<class T, bool Copyable>
 struct OptRunner {
 	Two<frg::optional<T>> f; Two<std::optional<T>> s;
-	void begin() { f.make(1); f.make(2); s.make(1); s.make(2); addrs().add_pseudo(f.store, sizeof f.store, 1001); }
+	void begin() { addrs().add_pseudo(f.store, sizeof f.store, 1001); f.make(1); f.make(2); s.make(1); s.make(2); }
 	bool apply(const Op &o) {
 		int d = o.d, q = 3 - o.d;
 		if(o.name == "default") { f.make(d); s.make(d); }
@@ -90,7 +90,7 @@ template<class T, bool Copyable>
 struct ExpRunner {
 	using F = frg::expected<Err, T>; using S = std::expected<T, Err>;
 	Two<F> f; Two<S> s;
-	void begin() { f.make(1); f.make(2); s.make(1); s.make(2); addrs().add_pseudo(f.store, sizeof f.store, 1001); }
+	void begin() { addrs().add_pseudo(f.store, sizeof f.store, 1001); f.make(1); f.make(2); s.make(1); s.make(2); }
 	bool apply(const Op &o) {
 		int d = o.d, q = 3 - o.d;
 		if(o.name == "default") { f.make(d); s.make(d); }
@@ -126,7 +126,7 @@ template<class T, bool Copyable>
 struct VarRunner {
 	using F = frg::variant<long long, T, Small>; using S = std::variant<std::monostate, long long, T, Small>;
 	Two<F> f; Two<S> s;
-	void begin() { f.make(1); f.make(2); s.make(1); s.make(2); addrs().add_pseudo(f.store, sizeof f.store, 1001); }
+	void begin() { addrs().add_pseudo(f.store, sizeof f.store, 1001); f.make(1); f.make(2); s.make(1); s.make(2); }
 	bool apply(const Op &o) {
 		int d = o.d, q = 3 - o.d;
 		if(o.name == "default") { f.make(d); s.make(d); }
@@ -200,7 +200,7 @@ static void run_one(R &r, const std::string &kind, const std::string &elem, cons
 	blocks().reset(); addrs().reset();
 	Ev("Reset").str("kind", kind).str("elem", elem).emit();
 	try {
-		bool lo = ledger_on(); ledger_on() = false; r.begin(); ledger_on() = lo;
+		bool lo = ledger_on(); r.begin();
 		for(auto &o : h) {
 			if(ledger_on()) Ev("OpBegin").str("name", o.name).i("d", o.d).emit();
 			bool did = r.apply(o);
